@@ -39,6 +39,13 @@ def check(run, prog, tier):
     rule_B(run, prog)
     rule_C(run, prog)
     rule_D(run, prog)
+    run.rule("C10-E", "an element that is reset and then accumulated in inner loops is addressed with the same indices both times "
+                      "(a dropped component index broadcasts every term into all Cartesian components)", minimum=3)
+    rule_E(run, prog)
+    run.rule("C10-G", "the electronic dipole of an element is that of the two levels between which the molecule changes", minimum=1)
+    rule_G(run, prog)
+    run.rule("C10-F", "what the aggregate calls on its molecules exists in Molecule (modes are declared through these calls)", minimum=25)
+    rule_F(run, prog)
 
 
 def rule_A(run, prog):
@@ -325,3 +332,159 @@ def rule_D(run, prog):
     n = apiexist.check_functions(run, rid, prog, funcs, "building vibronic states")
     if n < 8:
         raise AnalysisError("API scan saw only %d external references" % n)
+
+
+def rule_E(run, prog):
+    """'Every dipole element between vibronic states equals the electronic quantity times the product of the overlaps':
+    the conversions and builders of the aggregate write such elements as `X[i, j, a] = 0.0` followed, in inner loops, by
+    `X[...] += term`.  The accumulation has to address the element that was reset: with an index missing (`X[i, j] +=`)
+    numpy broadcasts the term over the remaining axis and every component gets the sum of all components."""
+    from ..loader import parents_map
+    rid = "C10-E"
+    n = 0
+    mod = prog.module("quantarhei.builders.aggregate_base")
+    for c in mod.classes.values():
+        for fn in c.methods.values():
+            pm = parents_map(fn.node)
+            for st in walk_no_nested(fn.node):
+                if not (isinstance(st, ast.Assign) and isinstance(st.targets[0], ast.Subscript) and isinstance(st.value, ast.Constant)
+                        and st.value.value in (0, 0.0)):
+                    continue
+                base = norm(st.targets[0].value)
+                blk = None
+                p_ = pm.get(st)
+                for fld in ("body", "orelse"):
+                    b_ = getattr(p_, fld, None)
+                    if isinstance(b_, list) and st in b_:
+                        blk = b_
+                if blk is None:
+                    continue
+                # a later reset of the same array in the same block ends the scope
+                after = blk[blk.index(st) + 1:]
+                accs = []
+                for nx in after:
+                    if isinstance(nx, ast.Assign) and isinstance(nx.targets[0], ast.Subscript) and norm(nx.targets[0].value) == base \
+                            and isinstance(nx.value, ast.Constant):
+                        break
+                    if isinstance(nx, (ast.For, ast.While)):
+                        accs += [x for x in ast.walk(nx) if isinstance(x, ast.AugAssign) and isinstance(x.target, ast.Subscript)
+                                 and norm(x.target.value) == base]
+                for a_ in accs:
+                    n += 1
+                    prog.consulted.add(fn.relpath)
+                    run.obligation(rid, fn.short, norm(a_.target.slice) == norm(st.targets[0].slice),
+                                   key="same-element:%s:%s" % (base, norm(a_.target)[:40]),
+                                   message="%s resets %s and accumulates into %s: the two do not address the same element, the term is "
+                                           "broadcast over the missing index (every Cartesian component gets the sum of the components)"
+                                           % (fn.short, norm(st.targets[0]), norm(a_.target)), loc=fn.loc(a_))
+    if n < 3:
+        raise AnalysisError("only %d reset-then-accumulate pairs found in aggregate_base (3 confirmed)" % n)
+
+
+def rule_F(run, prog):
+    """Modes, dipoles and energies of the molecules are declared and read through methods the aggregate calls on the
+    elements of self.monomers.  Each attribute it uses there - on a name bound to self.monomers[...] or iterating over
+    self.monomers, or directly on self.monomers[...] - is a method or attribute of Molecule (or its bases).  A call of a
+    method that does not exist raises AttributeError, which the by-name accessors swallow in a bare except."""
+    rid = "C10-F"
+    mol = prog.cls("quantarhei.builders.molecules.Molecule")
+    names = set()
+    for b in prog.mro(mol):
+        if b is None:
+            continue
+        names |= set(b.methods) | set(b.attrs)
+        for fn in b.methods.values():
+            for x in ast.walk(fn.node):
+                if isinstance(x, ast.Attribute) and norm(x.value) == "self" and isinstance(x.ctx, ast.Store):
+                    names.add(x.attr)
+    n = 0
+    for q in ("quantarhei.builders.aggregate_base", "quantarhei.builders.aggregates", "quantarhei.builders.aggregate_spectroscopy",
+              "quantarhei.builders.aggregate_excitonanalysis", "quantarhei.builders.opensystem"):
+        mod = prog.module(q)
+        for c in mod.classes.values():
+            for fn in c.methods.values():
+                vars_ = set()
+                for x in walk_no_nested(fn.node):
+                    if isinstance(x, ast.Assign) and isinstance(x.value, ast.Subscript) and norm(x.value.value) == "self.monomers" \
+                            and isinstance(x.targets[0], ast.Name):
+                        vars_.add(x.targets[0].id)
+                    if isinstance(x, ast.For) and norm(x.iter) == "self.monomers" and isinstance(x.target, ast.Name):
+                        vars_.add(x.target.id)
+                for x in walk_no_nested(fn.node):
+                    on_mono = isinstance(x, ast.Attribute) and (
+                        (isinstance(x.value, ast.Name) and x.value.id in vars_) or
+                        (isinstance(x.value, ast.Subscript) and norm(x.value.value) == "self.monomers"))
+                    if not on_mono:
+                        continue
+                    n += 1
+                    prog.consulted.add(fn.relpath)
+                    run.obligation(rid, fn.short, x.attr in names, key="molecule-api:" + norm(x)[:40],
+                                   message="%s uses %s on a molecule of the aggregate; Molecule has no attribute '%s' (%s): the call "
+                                           "raises AttributeError" % (fn.short, norm(x), x.attr,
+                                                                      "did you mean " + ", ".join(sorted(k for k in names if k.lower() == x.attr.lower())[:2])
+                                                                      if any(k.lower() == x.attr.lower() for k in names) else "no similar name"),
+                                   loc=fn.loc(x))
+    if n < 25:
+        raise AnalysisError("only %d uses of molecule attributes found (25 confirmed)" % n)
+
+
+def rule_G(run, prog):
+    """'Every dipole element between vibronic states equals the electronic quantity times the product of the overlaps, for
+    all level counts per molecule': the electronic quantity of the element <state1|D|state2> is the transition dipole of
+    the molecule `exindx` that changes its state, between its levels in the two states - elsignature[exindx] of state1
+    and of state2.  Constant levels (0, 1) are that transition only for two-level molecules; _get_exindx lets band
+    differences of one and two through, so the 1->2 and 0->2 transitions of a three-level molecule reach this line."""
+    rid = "C10-G"
+    f = prog.func("quantarhei.builders.aggregate_base.AggregateBase.transition_dipole")
+    prog.consulted.add(f.relpath)
+    calls = [c for c in walk_no_nested(f.node) if isinstance(c, ast.Call) and norm(c.func) == "self.get_dipole"]
+    if len(calls) != 1 or len(calls[0].args) != 3:
+        raise AnalysisError("transition_dipole: the call self.get_dipole(molecule, level, level) not found")
+    c = calls[0]
+    mol = norm(c.args[0])
+    # names bound to the signature entries of the two states at the changing molecule
+    lev = {}
+    for st in walk_no_nested(f.node):
+        if isinstance(st, ast.Assign) and isinstance(st.targets[0], ast.Name) and isinstance(st.value, ast.Subscript) \
+                and norm(st.value.value).endswith(".elstate.elsignature") and norm(st.value.slice) == mol:
+            lev[st.targets[0].id] = norm(st.value.value).split(".")[0]
+
+    # names derived from them (min / max / sorted, possibly unpacked)
+    changed = True
+    multi = {}
+    while changed:
+        changed = False
+        for st in walk_no_nested(f.node):
+            if isinstance(st, ast.Assign):
+                srcs = set()
+                for x in ast.walk(st.value):
+                    if isinstance(x, ast.Name) and x.id in lev:
+                        srcs.add(lev[x.id])
+                    if isinstance(x, ast.Name) and x.id in multi:
+                        srcs |= multi[x.id]
+                if not srcs:
+                    continue
+                for t_ in st.targets:
+                    for y in (t_.elts if isinstance(t_, (ast.Tuple, ast.List)) else [t_]):
+                        if isinstance(y, ast.Name) and y.id not in lev and multi.get(y.id) != srcs:
+                            multi[y.id] = srcs
+                            changed = True
+
+    def from_states(e):
+        src = set()
+        for x in ast.walk(e):
+            if isinstance(x, ast.Name) and x.id in multi:
+                src |= multi[x.id]
+        for x in ast.walk(e):
+            if isinstance(x, ast.Name) and x.id in lev:
+                src.add(lev[x.id])
+            if isinstance(x, ast.Subscript) and norm(x.value).endswith(".elstate.elsignature") and norm(x.slice) == mol:
+                src.add(norm(x.value).split(".")[0])
+        return src
+    params = [a.arg for a in f.node.args.args[1:3]]
+    ok = from_states(c.args[1]) == set(params) and from_states(c.args[2]) == set(params) or \
+        (from_states(c.args[1]) | from_states(c.args[2])) == set(params) and not any(isinstance(a, ast.Constant) for a in c.args[1:])
+    run.obligation(rid, "AggregateBase.transition_dipole", ok, key="levels-of-the-transition",
+                   message="transition_dipole takes %s for every pair of states: the levels are not read from the electronic "
+                           "signatures of the two states at the molecule that changes, so for a molecule with more than two levels "
+                           "the 1->2 and 0->2 elements carry the 0->1 dipole" % norm(c), loc=f.loc(c), sample={"call": norm(c)})
